@@ -59,7 +59,7 @@ def run_job(drv, j):
 
 
 def parse(out):
-    d = {"starts": [], "P": [], "ACC": set(), "SEG": [], "status": None, "skip": None, "end": False}
+    d = {"starts": [], "P": [], "ACC": set(), "SEG": [], "status": None, "skip": None, "end": False, "goalmismatch": None}
     for l in out.split("\n"):
         w = l.split("#")[0].split()
         if not w: continue
@@ -68,6 +68,7 @@ def parse(out):
         elif w[0] == "P": d["P"].append(dict(id=int(w[1]), inb=w[2] == "1", valid=w[3] == "1", goal=w[4] == "1", gdist=int(w[5])))
         elif w[0] == "ACC": d["ACC"].add((int(w[1]), int(w[2])))
         elif w[0] == "SEG": d["SEG"].append((w[1] == "1", int(w[2])))
+        elif w[0] == "GOALMISMATCH": d["goalmismatch"] = d["goalmismatch"] or " ".join(w[1:])
         elif w[0] == "SKIP": d["skip"] = l[5:]
         elif w[0] == "END": d["end"] = True
     return d
@@ -88,6 +89,7 @@ def predicate(d, classA, sym, tol=1):
         return None if s["after"] == s["before"] else "status %d is not a solution status but the problem definition gained %d solution path(s)" % (s["code"], s["after"] - s["before"])
     P = d["P"]
     if not s["has"] or not P: return "solution status %d without a solution path" % s["code"]
+    if d.get("goalmismatch"): return "the goal's isSatisfied() / distance disagrees with distance(state, goal state) < threshold: state " + d["goalmismatch"]
     if not any(i == P[0]["id"] and v and b for i, v, b in d["starts"]): return "path does not start at a valid start state"
     for k, p in enumerate(P):
         if not p["inb"]: return "path state %d is outside the space bounds" % k
